@@ -72,6 +72,17 @@ REAL = [
 ]
 
 
+# builtins that do not annotate their argument in place: after `b = f(a, …)` the variable `a` still holds what it was
+# assigned (categorize, tag and split_url_events annotate the events they are given, period_union clears their data:
+# known behaviour of the transforms, outside C11)
+ARGKEEP = [
+    ("concat", [_q("afk")]), ("filter_keyvals", [_s("app"), ["l", [_s("a0")]]]), ("exclude_keyvals", [_s("app"), ["l", [_s("a0")]]]),
+    ("filter_keyvals_regex", [_s("title"), _s("t1")]), ("sort_by_timestamp", []), ("sort_by_duration", []), ("limit_events", [["i", 2]]),
+    ("merge_events_by_keys", [["l", [_s("app")]]]), ("chunk_events_by_key", [_s("app")]), ("flood", []), ("sum_durations", []),
+    ("union_no_overlap", [_q("afk")]), ("filter_period_intersect", [_q("afk")]), ("simplify_window_titles", [_s("title")]),
+]
+
+
 class C11(Prop):
     ID = "C11"
     MODULE = "AwProofs.Props.C11"
@@ -139,6 +150,14 @@ class C11(Prop):
         rng = ctx.rng("c11real")
         for p in REAL:
             out.append(("real-builtins", {"k": "real", "prog": p, "lays": self.lays(rng, 4)}))
+        for name, extra in ARGKEEP:
+            for first in (True, False):
+                args = [["v", "a"]] + extra if first else (extra[:1] + [["v", "a"]] if extra and extra[0][0] == "c" else None)
+                if args is None:
+                    continue
+                src = _q("win")
+                p = [["a", src], ["b", ["c", name, args]], ["RETURN", ["l", [["v", "a"], ["v", "b"]]]]]
+                out.append(("real-argkeep", {"k": "real", "prog": p, "lays": self.lays(rng, 3), "value_semantics": True}))
         # every builtin, well-typed, with bracketed arguments everywhere
         rng = ctx.rng("c11builtins")
         for name in sorted(reg):
@@ -248,7 +267,7 @@ class C11(Prop):
         if case["k"] == "real":
             if out is None:
                 return None
-            want = Q.ref_eval_real(case["prog"])
+            want = Q.ref_eval_real(case["prog"], value_semantics=bool(case.get("value_semantics")))
             if want[0] == "err":
                 raise RuntimeError(f"reference evaluation of a real-builtins program failed: {want}")
             for t, o in zip(texts, out["outs"]):
